@@ -40,9 +40,33 @@ Proof.
   repeat split; auto; lia.
 Qed.
 
+(** the part of Validate that relates the two schedules to (EndTime,
+    OriginalVesting); it is all the reading functions need, and (unlike
+    [start < end]) it is preserved by every keeper operation *)
+Definition coherent (va : account) : Prop :=
+  consistent (start_time va) (end_time va) (lockup va) (original va) /\
+  consistent (start_time va) (end_time va) (vesting va) (original va).
+
+Lemma valid_coherent va : valid va -> wf_acc va -> coherent va.
+Proof. intros Hv Hwf. destruct (valid_inv va Hv Hwf) as (_ & H1 & H2 & _). by split. Qed.
+
+Lemma coherent_valid va : wf_acc va -> coherent va -> start_time va < end_time va ->
+  is_all_lte (dvest va) (original va) = true -> valid va.
+Proof.
+  intros [Hll Hla Hvl Hva Ho _ _] [[Hl1 Hl2] [Hv1 Hv2]] Hse Hd. unfold valid, validate.
+  destruct (Z.leb_spec (end_time va) (start_time va)); [lia|].
+  destruct (Z.ltb_spec (end_time va) (start_time va + total_len (lockup va))); [lia|].
+  assert (coin_eq (total_amount (lockup va)) (original va) = true) as ->.
+  { apply coin_eq_spec; [by apply total_amount_nonneg|done|]. intros d. by rewrite Hl2. }
+  destruct (Z.ltb_spec (end_time va) (start_time va + total_len (vesting va))); [lia|].
+  assert (coin_eq (total_amount (vesting va)) (original va) = true) as ->.
+  { apply coin_eq_spec; [by apply total_amount_nonneg|done|]. intros d. by rewrite Hv2. }
+  by rewrite Hd.
+Qed.
+
 Section Account.
   Variable va : account.
-  Hypothesis Hv : valid va.
+  Hypothesis Hc : coherent va.
   Hypothesis Hwf : wf_acc va.
 
   Let s := start_time va.
@@ -53,41 +77,41 @@ Section Account.
   Lemma unlocked_zero_before t : t <= s -> get_unlocked va t = ∅.
   Proof. apply read_zero_before. Qed.
 
-  Lemma vested_total_after t : e <= t -> get_vested va t = original va.
-  Proof. intros H. destruct (valid_inv va Hv Hwf) as [? _]. apply read_total_after; unfold s, e in *; lia. Qed.
-  Lemma unlocked_total_after t : e <= t -> get_unlocked va t = original va.
-  Proof. intros H. destruct (valid_inv va Hv Hwf) as [? _]. apply read_total_after; unfold s, e in *; lia. Qed.
+  Lemma vested_total_after t : s < t -> e <= t -> get_vested va t = original va.
+  Proof. apply read_total_after. Qed.
+  Lemma unlocked_total_after t : s < t -> e <= t -> get_unlocked va t = original va.
+  Proof. apply read_total_after. Qed.
 
   (** after the start, the vested (unlocked) amount is the sum of all vesting
       (lockup) periods that have ended *)
   Lemma vested_is_ev t d : s < t -> amt (get_vested va t) d = evd d s (vesting va) t.
   Proof.
-    intros H. destruct (valid_inv va Hv Hwf) as (_ & _ & Hc & _). destruct Hwf.
+    intros H. destruct Hc as [_ Hcv]. destruct Hwf.
     by apply read_is_ev.
   Qed.
   Lemma unlocked_is_ev t d : s < t -> amt (get_unlocked va t) d = evd d s (lockup va) t.
   Proof.
-    intros H. destruct (valid_inv va Hv Hwf) as (_ & Hc & _ & _). destruct Hwf.
+    intros H. destruct Hc as [Hcl _]. destruct Hwf.
     by apply read_is_ev.
   Qed.
 
   Lemma vested_mono t1 t2 d : t1 <= t2 -> amt (get_vested va t1) d <= amt (get_vested va t2) d.
   Proof.
-    intros H. destruct (valid_inv va Hv Hwf) as (_ & _ & Hc & _). destruct Hwf. by apply read_mono.
+    intros H. destruct Hc as [_ Hcv]. destruct Hwf. by apply read_mono.
   Qed.
   Lemma unlocked_mono t1 t2 d : t1 <= t2 -> amt (get_unlocked va t1) d <= amt (get_unlocked va t2) d.
   Proof.
-    intros H. destruct (valid_inv va Hv Hwf) as (_ & Hc & _ & _). destruct Hwf. by apply read_mono.
+    intros H. destruct Hc as [Hcl _]. destruct Hwf. by apply read_mono.
   Qed.
 
   Lemma vested_bounds t d : 0 <= amt (get_vested va t) d <= amt (original va) d.
   Proof.
-    destruct (valid_inv va Hv Hwf) as (_ & _ & Hc & _). destruct Hwf.
+    destruct Hc as [_ Hcv]. destruct Hwf.
     split; [by apply read_nonneg|by apply read_le_total].
   Qed.
   Lemma unlocked_bounds t d : 0 <= amt (get_unlocked va t) d <= amt (original va) d.
   Proof.
-    destruct (valid_inv va Hv Hwf) as (_ & Hc & _ & _). destruct Hwf.
+    destruct Hc as [Hcl _]. destruct Hwf.
     split; [by apply read_nonneg|by apply read_le_total].
   Qed.
 
@@ -132,7 +156,7 @@ End Account.
 (** * ComputeClawback *)
 Section Clawback.
   Variable va : account.
-  Hypothesis Hv : valid va.
+  Hypothesis Hc : coherent va.
   Hypothesis Hwf : wf_acc va.
   Variable t : Z.
 
@@ -143,7 +167,7 @@ Section Clawback.
   Let cjr := cj (lockup va) s [mkp 0 V] s s ∅ ∅ ∅.
 
   Lemma V_nonneg : nonneg V.
-  Proof. intros d. apply (vested_bounds va Hv Hwf). Qed.
+  Proof. intros d. apply (vested_bounds va Hc Hwf). Qed.
 
   Lemma cap_ok : lens_ok [mkp 0 V] /\ amts_ok [mkp 0 V].
   Proof. split; constructor; try constructor; cbn; [lia|apply V_nonneg]. Qed.
@@ -151,7 +175,7 @@ Section Clawback.
   (** the vested amount is the sum of the periods that are kept *)
   Lemma V_prefix d : amt V d = amt (total_amount vp') d.
   Proof.
-    destruct (valid_inv va Hv Hwf) as (Hse & _ & [Hc1 Hc2] & _). pose proof (wf_vl _ Hwf) as Hl.
+    destruct Hc as [_ [Hc1 Hc2]]. pose proof (wf_vl _ Hwf) as Hl.
     unfold V, vp', k, past_count, get_vested, read_past_count, read_schedule. fold s.
     destruct (Z.leb_spec t s); [by rewrite amt_empty, take_0, total_amount_nil|].
     destruct (Z.leb_spec (end_time va) t).
@@ -163,7 +187,7 @@ Section Clawback.
   (** read at any time, the kept periods yield min(vested then, vested at [t]) *)
   Lemma vp'_cut d t' : evd d s vp' t' = Z.min (evd d s (vesting va) t') (amt V d).
   Proof.
-    destruct (valid_inv va Hv Hwf) as (Hse & _ & [Hc1 Hc2] & _).
+    destruct Hc as [_ [Hc1 Hc2]].
     pose proof (wf_vl _ Hwf) as Hl. pose proof (wf_va _ Hwf) as Ha.
     pose proof (evd_nonneg d (vesting va) s t' Ha). pose proof (evd_le_total d (vesting va) s t' Ha).
     unfold V, vp', k, past_count, get_vested, read_past_count, read_schedule. fold s.
@@ -182,10 +206,10 @@ Section Clawback.
 
   Lemma cjr_total d : amt (total_amount (fst cjr)) d = amt V d.
   Proof.
-    destruct cap_ok. destruct (valid_inv va Hv Hwf) as (_ & [_ Hc] & _ & _).
+    destruct cap_ok. destruct Hc as [[_ Hcl] _].
     unfold cjr. rewrite cj_total; try done; try apply nonneg_empty; try apply Hwf.
-    rewrite !amt_empty, total_amount_cons, total_amount_nil, <- Hc. cbn [amount].
-    pose proof (vested_bounds va Hv Hwf t d). fold V in H1. lia.
+    rewrite !amt_empty, total_amount_cons, total_amount_nil, <- Hcl. cbn [amount].
+    pose proof (vested_bounds va Hc Hwf t d). fold V in H1. lia.
   Qed.
 
   Lemma cjr_lens : lens_ok (fst cjr).
@@ -193,6 +217,11 @@ Section Clawback.
     destruct cap_ok. unfold cjr. apply cj_lens; try done; try apply Hwf.
     - pose proof (wf_ll _ Hwf) as Hl. destruct (lockup va); cbn; [done|]. inversion Hl; subst. lia.
     - cbn. lia.
+  Qed.
+
+  Lemma cjr_amts : amts_ok (fst cjr).
+  Proof.
+    destruct cap_ok. unfold cjr. apply cj_amts; try done; try apply nonneg_empty; apply Hwf.
   Qed.
 
   Lemma cjr_end : snd cjr = s + total_len (fst cjr).
@@ -204,7 +233,7 @@ Section Clawback.
             csub (original va) V).
   Proof.
     unfold compute_clawback, get_vesting. fold V.
-    rewrite csub_chk_nonneg by (intros d; apply (vested_bounds va Hv Hwf)).
+    rewrite csub_chk_nonneg by (intros d; apply (vested_bounds va Hc Hwf)).
     unfold conjunct. fold s. rewrite Z.min_id. fold cjr. fold k. fold vp'. done.
   Qed.
 
@@ -225,7 +254,7 @@ Section Clawback.
   Proof.
     eexists _, _. split; [apply compute_clawback_eq|]. cbn [original funder start_time dfree dvest].
     split; [intros d; by rewrite amt_csub|]. split.
-    { unfold get_vesting. fold V. apply csub_chk_nonneg. intros d. apply (vested_bounds va Hv Hwf). }
+    { unfold get_vesting. fold V. apply csub_chk_nonneg. intros d. apply (vested_bounds va Hc Hwf). }
     do 5 (split; [done|]).
     pose proof V_nonneg as HV. fold V.
     split; intros t' d.
@@ -234,39 +263,46 @@ Section Clawback.
       + rewrite read_zero_before, (unlocked_zero_before va t'), amt_empty by done. specialize (HV d). lia.
       + rewrite read_is_ev; [|apply cjr_lens| |done].
         2:{ split; [rewrite cjr_end; lia|]. intros d'. by rewrite cjr_total. }
-        rewrite cjr_ev, (unlocked_is_ev va Hv Hwf) by done. fold s.
+        rewrite cjr_ev, (unlocked_is_ev va Hc Hwf) by done. fold s.
         destruct (Z.leb_spec s t'); [done|lia].
     - unfold get_vested at 1. cbn [start_time end_time lockup vesting original].
       destruct (Z.le_gt_cases t' s).
       + rewrite read_zero_before, (vested_zero_before va t'), amt_empty by done. specialize (HV d). lia.
       + rewrite read_is_ev; [|apply firstn_lens_ok, Hwf| |done].
         2:{ split; [lia|]. apply V_prefix. }
-        rewrite vp'_cut, (vested_is_ev va Hv Hwf) by done. done.
+        rewrite vp'_cut, (vested_is_ev va Hc Hwf) by done. done.
   Qed.
 
-  (** ** validity of the resulting account *)
+  (** ** the resulting account *)
+  (** every check of Validate that relates schedules, end time and original
+      vesting holds for the result, always *)
+  Theorem clawback_coherent va' c : compute_clawback va t = Some (va', c) -> coherent va' /\ wf_acc va'.
+  Proof.
+    rewrite compute_clawback_eq. intros [= <- <-]. split; [split; split|];
+      cbn [start_time end_time lockup vesting original dfree dvest].
+    - rewrite cjr_end. fold s. lia.
+    - intros d. by rewrite cjr_total.
+    - fold s. lia.
+    - apply V_prefix.
+    - constructor; cbn [lockup vesting original dfree dvest]; try apply Hwf.
+      + apply cjr_lens.
+      + (* amounts of the capped lockup schedule are the emitted differences *)
+        apply cjr_amts.
+      + by apply firstn_lens_ok, Hwf.
+      + by apply firstn_amts_ok, Hwf.
+      + apply V_nonneg.
+  Qed.
+
   (** The account passes Validate as soon as its new end time is after its
       start time (and the recorded DelegatedVesting does not exceed what is
-      kept).  All other checks of Validate always hold. *)
+      kept). *)
   Theorem clawback_valid_general va' c : compute_clawback va t = Some (va', c) ->
     is_all_lte (dvest va) (get_vested va t) = true ->
     start_time va < end_time va' -> valid va'.
   Proof.
-    rewrite compute_clawback_eq. intros [= <- <-] Hd He. cbn [end_time] in He. fold V in Hd.
-    unfold valid, validate. cbn [start_time end_time lockup vesting original dvest]. fold s in He |- *.
-    destruct (Z.leb_spec (Z.max (s + total_len vp') (snd cjr)) s); [lia|].
-    rewrite <- cjr_end.
-    destruct (Z.ltb_spec (Z.max (s + total_len vp') (snd cjr)) (snd cjr)); [lia|].
-    assert (Hcj : nonneg (total_amount (fst cjr))).
-    { intros d. rewrite cjr_total. apply V_nonneg. }
-    assert (coin_eq (total_amount (fst cjr)) V = true) as ->.
-    { apply coin_eq_spec; [done|apply V_nonneg|]. intros d. apply cjr_total. }
-    destruct (Z.ltb_spec (Z.max (s + total_len vp') (snd cjr)) (s + total_len vp')); [lia|].
-    assert (coin_eq (total_amount vp') V = true) as ->.
-    { apply coin_eq_spec; [|apply V_nonneg|].
-      - intros d. rewrite <- V_prefix. apply V_nonneg.
-      - intros d. symmetry. apply V_prefix. }
-    rewrite Hd. done.
+    intros Hcc Hd He. destruct (clawback_coherent va' c Hcc) as [Hco Hw].
+    rewrite compute_clawback_eq in Hcc. injection Hcc as <- _.
+    apply coherent_valid; try done.
   Qed.
 
   (** in particular: when every vesting period has positive length (as the
@@ -277,8 +313,8 @@ Section Clawback.
     (exists d, amt (get_vested va t) d <> 0) ->
     valid va'.
   Proof.
-    intros Hc Hd Hpos [d Hd0]. apply (clawback_valid_general va' c Hc Hd).
-    rewrite compute_clawback_eq in Hc. injection Hc as <- _. cbn [end_time]. fold s.
+    intros Hcc Hd Hpos [d Hd0]. apply (clawback_valid_general va' c Hcc Hd).
+    rewrite compute_clawback_eq in Hcc. injection Hcc as <- _. cbn [end_time]. fold s.
     fold V in Hd0. rewrite V_prefix in Hd0.
     assert (s < s + total_len vp'); [|lia].
     pose proof (firstn_lens_ok k _ (wf_vl _ Hwf)) as Hl. fold vp' in Hl.
